@@ -72,11 +72,24 @@ TableComplete(t) == {t[i].m : i \in DOMAIN t} = 1..12
 FoldConflicts(lang, table, t, val(_)) == {[lang |-> lang, table |-> table, fold |-> t[p[1]].fold, a |-> t[p[1]].w, b |-> t[p[2]].w] : p \in {q \in (DOMAIN t) \X (DOMAIN t) : q[2] > q[1] /\ t[q[2]].fold = t[q[1]].fold /\ val(t[q[2]]) # val(t[q[1]])}}
 MonthOf(e) == e.m
 TypeOf(e) == e.t
+\* what the words mean in their language, diacritics folded (the renderers read the tables from the tree under test, so a word that is
+\* bound to another month or unit would be written and expected consistently with the code: the meaning has to come from outside)
+MonthAnchor == [january |-> 1, february |-> 2, march |-> 3, april |-> 4, may |-> 5, june |-> 6, july |-> 7, august |-> 8, september |-> 9, october |-> 10,
+                november |-> 11, december |-> 12, jan |-> 1, feb |-> 2, mar |-> 3, apr |-> 4, jun |-> 6, jul |-> 7, aug |-> 8, sep |-> 9, oct |-> 10, nov |-> 11, dec |-> 12,
+                ocak |-> 1, subat |-> 2, mart |-> 3, nisan |-> 4, mayis |-> 5, haziran |-> 6, temmuz |-> 7, agustos |-> 8, eylul |-> 9, ekim |-> 10, kasim |-> 11, aralik |-> 12,
+                oca |-> 1, sub |-> 2, nis |-> 4, haz |-> 6, tem |-> 7, agu |-> 8, eyl |-> 9, eki |-> 10, kas |-> 11, ara |-> 12]
+WordAnchor == [day |-> 1, days |-> 1, week |-> 2, weeks |-> 2, month |-> 3, months |-> 3, year |-> 4, years |-> 4, second |-> 5, seconds |-> 5, minute |-> 6, minutes |-> 6,
+               hour |-> 7, hours |-> 7, today |-> 8, tomorrow |-> 9, yesterday |-> 10, now |-> 11,
+               gun |-> 1, hafta |-> 2, ay |-> 3, yil |-> 4, saniye |-> 5, dakika |-> 6, saat |-> 7, bugun |-> 8, yarin |-> 9, dun |-> 10, simdi |-> 11]
+OffAnchor(lang, table, t, anchor, val(_)) ==
+  {[lang |-> lang, table |-> table, fold |-> t[i].fold, a |-> t[i].w, b |-> t[i].w] : i \in {j \in DOMAIN t : t[j].fold \in DOMAIN anchor /\ val(t[j]) # anchor[t[j].fold]}}
 MonthsComplete ==
   /\ Check("a month has no name", PerLang(LAMBDA l : (IF TableComplete(l.long_months) THEN {} ELSE {[lang |-> l.lang, table |-> "long_months"]})
                                                      \cup (IF TableComplete(l.short_months) THEN {} ELSE {[lang |-> l.lang, table |-> "short_months"]})))
   /\ Check("spellings that differ only by diacritics name different months",
            PerLang(LAMBDA l : FoldConflicts(l.lang, "long_months", l.long_months, MonthOf) \cup FoldConflicts(l.lang, "short_months", l.short_months, MonthOf)))
+  /\ Check("a month name is bound to another month",
+           PerLang(LAMBDA l : OffAnchor(l.lang, "long_months", l.long_months, MonthAnchor, MonthOf) \cup OffAnchor(l.lang, "short_months", l.short_months, MonthAnchor, MonthOf)))
 \* constant types: 1 day 2 week 3 month 4 year 5 second 6 minute 7 hour 8 today 9 tomorrow 10 yesterday 11 now
 WordsComplete ==
   /\ Check("a duration unit or day keyword has no word", PerLang(LAMBDA l : {[lang |-> l.lang, type |-> t] : t \in (1..10) \ {l.constants[i].t : i \in DOMAIN l.constants}}))
@@ -85,6 +98,7 @@ WordsComplete ==
   /\ Check("a duration word is bound to a day keyword",
            PerLang(LAMBDA l : {[lang |-> l.lang, word |-> l.constants[i].w] : i \in {j \in DOMAIN l.constants : l.constants[j].w \in SeqToSet(l.duration_group) /\ l.constants[j].t \notin 1..7}}))
   /\ Check("spellings that differ only by diacritics mean different things", PerLang(LAMBDA l : FoldConflicts(l.lang, "constant_pair", l.constants, TypeOf)))
+  /\ Check("a duration word or day keyword is bound to another meaning", PerLang(LAMBDA l : OffAnchor(l.lang, "constant_pair", l.constants, WordAnchor, TypeOf)))
 MoneyTablesClosed ==
   /\ Check("alias of an unknown currency", {a \in SeqToSet(Cfg.alias) : a.cur \notin SeqToSet(Cfg.currencies)})
   /\ Check("rate of an unknown currency", {[cur |-> c] : c \in SeqToSet(Cfg.rated) \ SeqToSet(Cfg.currencies)})
